@@ -8,7 +8,8 @@ tie   : T-gen (GetStartBucketIndex / GetNextBucketIndex / GetMaxProbe / UpdateMa
 oracle: std::map twin inside the harness (independent of the Coq model)."""
 import os, re
 
-GEN = ['gen_p4base.json', 'gen_p4.json', 'gen_p4a.json', 'gen_one.json', 'gen_open2n2_ops.json', 'gen_openn1_ops.json', 'gen_unlimp.json', 'gen_limp1.json', 'gen_limp1t.json', 'gen_limp1f.json', 'gen_lim4.json', 'gen_limp.json', 'gen_open2n2w.json', 'gen_base.json', 'gen_policy.json', 'gen_limp4.json', 'gen_open2n2.json', 'gen_openn1.json', 'gen_open8.json']
+GEN = ['gen_p4base.json', 'gen_p4.json', 'gen_p4a.json', 'gen_one.json', 'gen_open2n2_ops.json', 'gen_openn1_ops.json', 'gen_unlimp.json', 'gen_limp1.json', 'gen_limp1t.json', 'gen_limp1f.json', 'gen_lim4.json', 'gen_limp.json', 'gen_open2n2w.json', 'gen_base.json', 'gen_policy.json', 'gen_limp4.json', 'gen_open2n2.json', 'gen_openn1.json', 'gen_open8.json',
+       'gen_hashset_grow.json', 'gen_limp1_ops.json']   # HashSet::Reserve / pvAddGrow size loops (config from props/C11)
 
 ITEMS = {'a': (4, 4, 0), 'b': (8, 4, 0), 'c': (8, 8, 0), 'd': (24, 8, 0), 'e': (40, 8, 0), 'f': (16, 16, 0), 'g': (1, 1, 0),
          'h': (2, 2, 0), 'u': (4, 4, 0), 'z': (12, 4, 0), 't': (3, 1, 0), 'n': (8, 4, 1), 'm': (24, 8, 1), 'x': (8, 4, 2), 'y': (40, 8, 2)}
@@ -362,6 +363,13 @@ def p4ops_cases(ctx, scale):
             elif x < 9: ops.append('r%d' % r.below(4))
             else: ops.append('c')
         cs.append('n1 40 4 %s' % ' '.join(ops))
+    # the chained kind BucketLimP1 (real memory pools) vs Gen_LimP1_ops: (maxCount, skipFirstMemPool) = (1,0) (2,1) (4,1) uint64_t items, (2,0) (3,0) 16-byte items
+    for i in range(100 * scale):
+        n, sk = r.choice([(1, 0), (2, 1), (4, 1), (2, 0), (3, 0)])
+        ops = []
+        for _ in range(r.range(1, 30)):
+            ops.append('a' if r.below(10) < 6 else 'r%d' % r.below(n))
+        cs.append('n1 41 %d %d %s' % (n, sk, ' '.join(ops)))
     return cs
 
 
@@ -430,9 +438,11 @@ def replay(ctx, rp):
         print('replay has no concrete case (no-failing-input-found): broken stages were', list(rp.get('broken', {}).keys())); return 1
     tu = rp.get('tu') or [t for t, ns in CONFIGS.items() if case.split()[0] in ns][0]
     path = os.path.join(ctx.build, 'replay.cases'); open(path, 'w').write(case + '\n')
-    rc, lines, err = ctx.run_lines([exes[tu]], path)
+    rc, lines, err = ctx.run_lines([exes[tu]], path, timeout=rp.get('timeout', 900))
     print('case:', case[:400], '\nimplementation:', (lines[0] if lines else err)[:2000])
     bad = oracle_scan(ctx, [case], lines, tu) if rc == 0 and lines else [(case, err, 'harness crashed')]
+    if rp.get('timeout') and rc == 0 and lines:
+        bad = []        # a Reserve boundary case: the expected std::length_error prints X; the failure being replayed is "does not return"
     model_bad = False
     if rp.get('model') is not None and lines and lines[0][:3000] != rp['model']:
         print('model (recorded):', rp['model'][:2000]); model_bad = True
@@ -536,6 +546,22 @@ def run(ctx):
             for (i, c, a, b) in mism[:1]:
                 ctx.violation('Reserve with a boundary capacity: the container hangs / disagrees with the model (expected std::length_error for unreachable capacities)',
                               {'case': c, 'tu': tu, 'impl': a[:500], 'model': b[:500]}, found_input=True)
+    if not have_model:
+        # the proof broke (e.g. the regenerated Reserve / pvAddGrow size loops lost their bound): the boundary capacities are still run
+        # against the implementation alone; a Reserve that does not return within the short timeout is the concrete failing input
+        rcs = reserve_cases(ctx)
+        by = {}
+        for c in rcs: by.setdefault([t for t, ns in CONFIGS.items() if c.split()[0] in ns][0], []).append(c)
+        for tu, cs in by.items():
+            path = os.path.join(ctx.build, 'reserve-bounds-%s.cases' % tu)
+            open(path, 'w').write('\n'.join(cs) + '\n')
+            rc, lines, err = ctx.run_lines([exes[tu]], path, timeout=10 + 2 * len(cs))
+            ctx.evaluations += len(cs)
+            okb = rc == 0 and len(lines) == len(cs)
+            ctx.stage('oracle-reserve-bounds-' + tu, okb, '' if okb else 'Reserve does not return / harness exit %d on case: %s' % (rc, cs[min(len(lines), len(cs) - 1)][:200]))
+            if not okb:
+                ctx.violation('Reserve with a boundary capacity: the container does not return (expected std::length_error for unreachable capacities)',
+                              {'case': cs[min(len(lines), len(cs) - 1)], 'tu': tu, 'timeout': 20, 'impl_output': err[-300:]}, found_input=True)
     if have_model:
         n1c = n1ops_cases(ctx, scale)
         mism, _ = ctx.correspond('openn1-ops-bytes', n1c, [exes['harness6']], [ctx.model_exe])
@@ -545,7 +571,7 @@ def run(ctx):
     if have_model:
         p4c = p4ops_cases(ctx, scale)
         mism, _ = ctx.correspond('limp4-ops-bytes', p4c, [exes['harness5']], [ctx.model_exe])
-        ctx.tie_obligations.append({'name': 'generated BucketLimP4 AddCrt / Remove / Clear == real object (metadata bytes, pool-index bits, null pointer), on %d random op sequences' % len(p4c), 'ok': not mism})
+        ctx.tie_obligations.append({'name': 'generated BucketLimP4 AddCrt / Remove / Clear == real object (metadata bytes, pool-index bits, null pointer) and generated BucketLimP1 AddCrt / Remove / IsFull / WasFull == real object (mState, null pointer, returned position; 5 (maxCount, skipFirstMemPool) instances), on %d random op sequences' % len(p4c), 'ok': not mism})
         for (i, c, a, b) in mism[:2]:
             ctx.violation('BucketLimP4 metadata after an operation sequence differs from the generated model', {'case': c, 'tu': 'harness5', 'impl': a, 'model': b}, found_input=True)
     if have_model:
